@@ -87,6 +87,28 @@ def lazy_null_constraints(v, acc, prefer='Null'):
     elif v.variant == 'Object':
         for k in v.fields[0].v.d: lazy_null_constraints(v.fields[0].v.d[k].v, acc, prefer)
 
+def check_pinned(eng, pc, pins, extra=()):
+    """satisfiability of pc (+extra) with as many of the completion pins as are consistent with it: a lazy part whose tag the path has only partly
+    constrained (e.g. tested non-null through its discriminant, never materialised) cannot take the preferred pin; dropping a pin never drops the path"""
+    pc = list(pc) + list(extra)
+    sat, m = eng.check(pc + list(pins))
+    if sat or not pins: return sat, m
+    keep = []
+    for c in pins:
+        ok, _ = eng.check(pc + keep + [c])
+        if ok: keep.append(c)
+    return eng.check(pc + keep)
+
+def model_tag(lz, model, prefer='Null'):
+    """the tag an unmaterialised lazy part has under the model (falls back to the pin)"""
+    if model is not None:
+        try:
+            tv = model.eval(lz.tagvar, model_completion=True).as_long()
+            for t in lz.tags:
+                if VIDX[t] == tv: return t
+        except Exception: pass
+    return pin_tag(lz, prefer)
+
 def fval(x, model):
     f = model.eval(x.f, model_completion=True) if model is not None else z3.simplify(x.f)
     try:
@@ -102,8 +124,8 @@ def tagged(ex, v, model, prefer='Null'):
     from vf.native import tag_num
     v = MM.deref_all(v)
     if v.lazy is not None:
-        t = pin_tag(v.lazy, prefer)
-        if t == 'Bool': return bool(z3.is_true(model.eval(z3.Bool('pinbool'), model_completion=True))) and False
+        t = model_tag(v.lazy, model, prefer)
+        if t == 'Bool': return False
         return {'Null': None, 'String': v.lazy.spec.strs[0], 'Number': tag_num('pos', 0), 'Array': [], 'Object': {}}.get(t)
     t = v.variant
     if t == 'Null': return None
